@@ -95,14 +95,15 @@ def run(ctx):
                        {"id": pid, "src": d.get("src"), "error": e, "function": site})
     # ---- dead-code elimination (go/dce.rs): model = implementation, Go's rules on its real output
     dce_cov = None
-    if not ctx.replay or _replay_is_dce(ctx.replay):
+    # (Ctx.__init__ reads the replay file's signature and then clears replays/<pid>-*.json: ask the context, not the file)
+    if not ctx.replay or (ctx.replay_signature or {}).get("source") == "dce" or _replay_is_dce(ctx.replay):
         dce_cov, found = dce.evaluate(ctx)
         for sig, what, payload in dce.split_for_properties(found)[0]:
             ctx.report(sig, what, payload)
     # ---- the name-test catalogue: every kind of user-named item x every name the back end tests for x every
     # relation (equal / prefix / suffix / infix / case): the real Go of each accepted program under Go.Check
     names_cov = None
-    if not ctx.replay or _replay_is_names(ctx.replay):
+    if not ctx.replay or (ctx.replay_signature or {}).get("oracle") == "name-test" or _replay_is_names(ctx.replay):
         names_cov, found = namecat.evaluate(ctx, classify)
         for sig, what, payload in found:
             ctx.report(sig, what, payload)
